@@ -239,10 +239,12 @@ impl Model {
     /// A strong handle to `target` is about to be released by the library; the
     /// model has already stopped counting it. Obligations (C03) are generated here,
     /// from exactly the state the property speaks about ("afterwards").
-    pub fn release_begin(&mut self, target: Id) {
+    pub fn release_begin(&mut self, target: Id) -> Vec<Id> {
         let snap = if self.want_snaps && self.elided { Some(Box::new(self.snap())) } else { None };
         self.frames.push(Frame { target, snap });
+        let before: Vec<Id> = self.obligations.iter().copied().collect();
         self.handle_removed(target);
+        self.obligations.iter().copied().filter(|o| !before.contains(o)).collect()
     }
 
     pub fn release_end(&mut self) {
